@@ -299,6 +299,39 @@ func runC08(c *Ctx) {
 		c.check(n == 1, "delete-label", f.ID+":sites", p.Pos(f.Decl.Pos()), "exactly one key is deleted", "DeleteLabel deletes "+itoa(n)+" keys")
 		checkErrDiscipline(c, "delete-label.errors", f, func(id string) bool { return id == "pkg/storage.Store.Delete" || id == "pkg/core.RepoExists" }, nil)
 	}
+	checkLabelListResolvesName(c)
+	// DownloadDescriptor reads the label key of (repo, name) from the label store
+	{
+		f := p.Func("pkg/core.Label.DownloadDescriptor")
+		okKey := false
+		for _, cs := range callersOf(p, "pkg/model.GetArchivePathToLabel") {
+			if cs.Fn.ID == f.ID && describeExpr(f, cs.Call.Args[0], 0) == "param#1.RepoID" && describeExpr(f, cs.Call.Args[1], 0) == "recv.Descriptor.Name" {
+				okKey = true
+			}
+		}
+		c.check(okKey, "get-label", f.ID, p.Pos(f.Decl.Pos()), "a label is resolved from GetArchivePathToLabel(bundle.RepoID, label.Descriptor.Name)", "DownloadDescriptor no longer reads the key built from (bundle.RepoID, label.Descriptor.Name)")
+		checkErrDiscipline(c, "get-label.errors", f, func(id string) bool {
+			return strings.HasPrefix(id, "pkg/storage.") || id == "io/ioutil.ReadAll" || id == "gopkg.in/yaml.v2.Unmarshal" || id == "pkg/core.RepoExists"
+		}, nil)
+	}
+	// a live label is never silently absent from a listing: only a descriptor that does not exist is skipped
+	checkSilentSkipOnlyNotExists(c, c.P.BodyOf(c.P.Func("pkg/core.getLabelAsync")), "listing.skip-only-not-exists", false)
+	checkNoRelabelAsMissing(c, "listing.no-relabel")
+	checkGenericErrorDiscipline(c, "pkg/core", "pkg/model")
+	checkBatchDistributesAllKeys(c, "listing.batch-distributes-all")
+	checkLabelVersionSplitGuarded(c, "listing.version-split-guarded")
+	if checkModelOptionSettersVerbatim(c, "names.option-setters-verbatim") < 3 {
+		c.fail("names.option-setters-verbatim", "pkg/model:setters", "-", "expected at least 3 string option setters in pkg/model")
+	}
+	checkLabelVersionSwitch(c, "resolve.version-switch")
+}
+
+func types_ExprString(e ast.Expr) string { return exprString(e) }
+
+// checkLabelListResolvesName (C08, pooled): a listed label is downloaded under the name parsed from its key, a
+// descriptor naming another label is an error, and a label is emitted only when its descriptor was read.
+func checkLabelListResolvesName(c *Ctx) {
+	p := c.P
 	{
 		f := p.Func("pkg/core.getLabelAsync")
 		info := f.Info()
@@ -349,30 +382,4 @@ func runC08(c *Ctx) {
 		bad, nT, nA := b.guardedByNilErr(isDl, isSend)
 		c.check(nT > 0 && nA > 0 && len(bad) == 0, "list-resolves-name", f.ID+":send-label", p.Pos(f.Decl.Pos()), "a label is emitted only when its descriptor was downloaded", "a label is emitted although its descriptor download failed or was not checked")
 	}
-	// DownloadDescriptor reads the label key of (repo, name) from the label store
-	{
-		f := p.Func("pkg/core.Label.DownloadDescriptor")
-		okKey := false
-		for _, cs := range callersOf(p, "pkg/model.GetArchivePathToLabel") {
-			if cs.Fn.ID == f.ID && describeExpr(f, cs.Call.Args[0], 0) == "param#1.RepoID" && describeExpr(f, cs.Call.Args[1], 0) == "recv.Descriptor.Name" {
-				okKey = true
-			}
-		}
-		c.check(okKey, "get-label", f.ID, p.Pos(f.Decl.Pos()), "a label is resolved from GetArchivePathToLabel(bundle.RepoID, label.Descriptor.Name)", "DownloadDescriptor no longer reads the key built from (bundle.RepoID, label.Descriptor.Name)")
-		checkErrDiscipline(c, "get-label.errors", f, func(id string) bool {
-			return strings.HasPrefix(id, "pkg/storage.") || id == "io/ioutil.ReadAll" || id == "gopkg.in/yaml.v2.Unmarshal" || id == "pkg/core.RepoExists"
-		}, nil)
-	}
-	// a live label is never silently absent from a listing: only a descriptor that does not exist is skipped
-	checkSilentSkipOnlyNotExists(c, c.P.BodyOf(c.P.Func("pkg/core.getLabelAsync")), "listing.skip-only-not-exists", false)
-	checkNoRelabelAsMissing(c, "listing.no-relabel")
-	checkGenericErrorDiscipline(c, "pkg/core", "pkg/model")
-	checkBatchDistributesAllKeys(c, "listing.batch-distributes-all")
-	checkLabelVersionSplitGuarded(c, "listing.version-split-guarded")
-	if checkModelOptionSettersVerbatim(c, "names.option-setters-verbatim") < 3 {
-		c.fail("names.option-setters-verbatim", "pkg/model:setters", "-", "expected at least 3 string option setters in pkg/model")
-	}
-	checkLabelVersionSwitch(c, "resolve.version-switch")
 }
-
-func types_ExprString(e ast.Expr) string { return exprString(e) }
